@@ -4,7 +4,7 @@
 //! every block-size border 192*2^n + delta is reached *exactly* as zero prefix
 //! + crafted suffix, in every update form, with and without the size hint.
 
-use crate::c01::{case_json, form_name, run_case, start_generator, validate_hook, Chunk};
+use crate::c01::{case_json, form_name, run_case, start_generator, start_generator_dirty, validate_hook, Chunk};
 use crate::common::*;
 use crate::corpus;
 use crate::gen_util::*;
@@ -98,8 +98,13 @@ fn hook_vs_real(n: u64) -> Result<(), String> {
 }
 
 /// One border case: zero prefix + suffix W_k^m (+ optional hint), one form.
-fn border_case(zp: u64, chunks: &[Chunk], hint: Option<u64>, acc: &mut Acc, sigp: &str) {
-    let mut g = start_generator(zp);
+fn border_case(zp: u64, chunks: &[Chunk], hint: Option<u64>, acc: &mut Acc, sigp: &str, dirty: bool) {
+    let case_json = |zp: u64, chunks: &[Chunk], hint: Option<u64>| {
+        let mut c = case_json(zp, chunks, hint);
+        c["dirty_start"] = json!(dirty);
+        c
+    };
+    let mut g = if dirty { start_generator_dirty(zp) } else { start_generator(zp) };
     let mut r = Ctph::new(zp);
     acc.evaluations += 1;
     acc.nontrivial += 1;
@@ -204,8 +209,10 @@ pub fn run(ctx: &Ctx) -> Report {
                 for (fi, &form) in FORMS3.iter().enumerate() {
                     for hint in [None, Some(total)] {
                         let chunks = vec![Chunk { word: corpus::W[k as usize].to_vec(), count: m, form }];
-                        let sigp = format!("border n={} delta={} W{}^{} {} hint={}", n, delta, k, m, form_name(form), hint.is_some());
-                        border_case(zp, &chunks, hint, acc, &sigp);
+                        for dirty in [false, true] {
+                            let sigp = format!("border n={} delta={} W{}^{} {} hint={}{}", n, delta, k, m, form_name(form), hint.is_some(), if dirty { " reused-generator" } else { "" });
+                            border_case(zp, &chunks, hint, acc, &sigp, dirty);
+                        }
                         if n == 30 && delta == 0 && k == 30 && m == 64 && fi == 0 && hint.is_none() {
                             acc.sample(case_json(zp, &chunks, hint));
                         }
@@ -215,6 +222,29 @@ pub fn run(ctx: &Ctx) -> Report {
         }
     });
     acc.into_report(&mut rep, "borders_zero_prefix_plus_trigger_suffix");
+
+    // ---- piece-poor inputs (zero prefix + a short tail) at every border, fresh and reused generator
+    let acc = par_shards(31 * 5, |i, acc| {
+        let n = (i / 5) as i64;
+        let delta = (i % 5) as i64 - 2;
+        let total = ((192u64 << n) as i64 + delta) as u64;
+        for tail in [&b"Hello, World!\n"[..], &[1u8][..], &corpus::W[0][..], &corpus::Z[..]] {
+            if total < tail.len() as u64 {
+                continue;
+            }
+            let zp = total - tail.len() as u64;
+            for &form in &FORMS3 {
+                for hint in [None, Some(total)] {
+                    for dirty in [false, true] {
+                        let chunks = vec![Chunk { word: tail.to_vec(), count: 1, form }];
+                        let sigp = format!("piece-poor n={} delta={} tail={}B {} hint={}{}", n, delta, tail.len(), form_name(form), hint.is_some(), if dirty { " reused-generator" } else { "" });
+                        border_case(zp, &chunks, hint, acc, &sigp, dirty);
+                    }
+                }
+            }
+        }
+    });
+    acc.into_report(&mut rep, "piece_poor_inputs_at_every_border_fresh_and_reused_generator");
 
     // ---- two-segment suffixes and mid-stream zero gaps: pieces first, then a long zero run
     //      (in-place hook), then more pieces; the total lands on a border +- 1
@@ -305,7 +335,7 @@ pub fn run(ctx: &Ctx) -> Report {
     rep.set("exhaustive", true);
     rep.set(
         "rule",
-        "for every n in 0..=30 and delta in -2..=2 the total size 192*2^n+delta is reached exactly as hook(zero prefix) + W_k^m with every k in 0..=30, m in {31,32,33,64,65} (thorough: {1,2,31,32,33,63,64,65,66}), in the slice / iterator / byte forms, without and with the correct size hint; plus 'pieces, 7 real zero bytes, in-place zero skip, pieces' histories whose total lands on a border +-1; plus all sizes 0..=8200 and all borders for the warning; plus sizes around 96 GiB, 192 GiB and u64::MAX for the hard limit.  All cases are distinct by construction; non-trivial = the library is called and compared with the reference.",
+        "for every n in 0..=30 and delta in -2..=2 the total size 192*2^n+delta is reached exactly as hook(zero prefix) + W_k^m with every k in 0..=30, m in {31,32,33,64,65} (thorough: {1,2,31,32,33,63,64,65,66}), in the slice / iterator / byte forms, without and with the correct size hint, on a fresh generator and on a reused one (all 31 contexts populated by an earlier input, then reset()); the same for piece-poor inputs (zero prefix + a short tail); plus 'pieces, 7 real zero bytes, in-place zero skip, pieces' histories whose total lands on a border +-1; plus all sizes 0..=8200 and all borders for the warning; plus sizes around 96 GiB, 192 GiB and u64::MAX for the hard limit.  All cases are distinct by construction; non-trivial = the library is called and compared with the reference.",
     );
     rep.assume("sizes above a few MiB are reached through hook H1 (zero prefix / in-place zero skip), whose equivalence with really feeding zeros is checked exhaustively for N < 4096 (thorough: 65536), around every border up to 192*2^13 (thorough: 2^24 ~ 3 GiB) and inductively (step(hook(N),0) == hook(N+1)) around every border up to 192 GiB");
     rep.assume("refmodel::ctph is ssdeep 2.14.1 (self-test)");
